@@ -23,7 +23,7 @@ STRUCT = "ringbuf_t"
 
 def _field(ptr, fn, m):
     s, f = paths.field_of(ptr, fn, m)
-    return f if s == STRUCT else None
+    return f if s in (STRUCT, STRUCT[:-2]) else None
 
 
 def _is_payload_ptr(ptr, fn, m):
@@ -46,7 +46,7 @@ def ringbuf_functions(mods):
     out = []
     for m in mods:
         for fn in m.defined_functions():
-            acc = [a for a in flow.accesses(fn, m) if a.struct == STRUCT]
+            acc = [a for a in flow.accesses(fn, m) if a.struct in (STRUCT, STRUCT[:-2])]
             if acc:
                 out.append((m, fn, acc))
     return out
